@@ -858,6 +858,26 @@ pub fn sender_contract() -> Vec<String> {
     if !client.is_shutdown() || !matches!(client.poll_next_unpin(&mut cx), Poll::Ready(None)) {
         fails.push("a shut down UdpClientStream does not end".into());
     }
+    // the `Boxed` variant of DnsResponseStream (what the h2/h3/quic senders return): one item, then the end;
+    // a Timeout error is the end of the stream, any other error is an item
+    {
+        use hickory_net::xfer::DnsResponseStream;
+        use hickory_net::NetError;
+        use hickory_proto::op::DnsResponse;
+        let resp = DnsResponse::from_buffer(encode_dgram(7, true, &[], 1)).unwrap();
+        let mut ok: DnsResponseStream = Box::pin(async move { Ok::<_, NetError>(resp) }).into();
+        if !matches!(ok.poll_next_unpin(&mut cx), Poll::Ready(Some(Ok(r))) if r.id == 7) || !matches!(ok.poll_next_unpin(&mut cx), Poll::Ready(None)) {
+            fails.push("boxed response stream: not `response, end`".into());
+        }
+        let mut to: DnsResponseStream = Box::pin(async { Err::<DnsResponse, _>(NetError::Timeout) }).into();
+        if !matches!(to.poll_next_unpin(&mut cx), Poll::Ready(None)) {
+            fails.push("boxed response stream: a timeout is not the end of the stream".into());
+        }
+        let mut er: DnsResponseStream = Box::pin(async { Err::<DnsResponse, _>(NetError::from("x")) }).into();
+        if !matches!(er.poll_next_unpin(&mut cx), Poll::Ready(Some(Err(_)))) || !matches!(er.poll_next_unpin(&mut cx), Poll::Ready(None)) {
+            fails.push("boxed response stream: not `error, end`".into());
+        }
+    }
     let msg = Message::new(1, MessageType::Query, OpCode::Query);
     match crate::common::catch(move || {
         let _ = client.send_message(DnsRequest::new(msg, DnsRequestOptions::default()));
